@@ -300,6 +300,15 @@ func checkC08Lines(s *C08Lines) Result {
 			sb.Print(line)
 			sb.UnsafeBytes(s.Cont)
 			got = []byte(sb.RedactableString())
+		case "SBReuse":
+			// the same on a builder that was used and emptied before (Take
+			// returns it to the state of a new one)
+			var sb redact.StringBuilder
+			sb.Print(line)
+			_ = sb.TakeRedactableString()
+			sb.Print(line)
+			sb.UnsafeBytes(s.Cont)
+			got = []byte(sb.RedactableString())
 		default: // SafeCont: what follows is safe text
 			got = []byte(redact.Sprintf("%s%s", line, redact.Safe(string(s.Cont))))
 			if !WF(got) {
